@@ -100,7 +100,7 @@ def tasks(tier, pid):
 # Properties whose contracts use Unit.convert_from / Unit.convert / the storage conversions through their specification
 # (contracts/unit_summaries.py): their checks re-discharge that specification on the real conversion code, so that a
 # change inside the conversions is reported under every property that is decided modulo them.
-USES_UNIT_CONTRACTS = ('C02', 'C03', 'C05', 'C09', 'C10', 'C11', 'C12', 'C15', 'C17', 'C19')
+USES_UNIT_CONTRACTS = ('C02', 'C03', 'C05', 'C09', 'C10', 'C11', 'C12', 'C14', 'C15', 'C17', 'C19')
 
 
 def unit_contract_tasks(tier, pid):
